@@ -83,7 +83,7 @@ def shape(t):
 FUNS = [(NUM, NUM), (STR, STR), (BOOL, BOOL), (NUM, STR), (STR, NUM), (BOOL, NUM), (NUM, BOOL)]
 FUN_BODY = {
     (NUM, NUM): "%s + 1", (STR, STR): '%s ++ "z"', (BOOL, BOOL): "!%s",
-    (NUM, STR): 'if %s > 0 then "p" else "n"', (STR, NUM): "std.string.length %s",
+    (NUM, STR): 'if %s > 0 then "p" else "n"', (STR, NUM): 'if %s == "" then 0 else 1',
     (BOOL, NUM): "if %s then 1 else 0", (NUM, BOOL): "%s > 0",
 }
 
